@@ -506,6 +506,22 @@ package transport
 //@   ensures err == nil ==> r != nil && fresh(r) && wfMsg(r) && ownSecs(r) && len(r.Questions) <= 65535 && len(r.Answers) <= 65535 && len(r.Authorities) <= 65535 && len(r.Additionals) <= 65535
 //@   ensures err != nil ==> r == nil
 
+// runDialingCall (the goroutine behind a DoQ dial): whatever the dial returns and whenever the transport is closed,
+// the dialing call is completed exactly once - its waiters are released on every path - and it is forgotten
+// (dialingCall reset) inside the critical section that decides; a connection that arrives after Close is closed and
+// reported as "transport closed", never handed out.
+//@ func (t *QuicTransport) runDialingCall(call *dialingQuicCall)
+//@   props C18
+//@   requires t != nil && call != nil && call.done != nil && call.c == nil && call.err == nil && t.opts.DialContext != nil && t.logger != nil && t.ctx != nil
+//@   ghost nDone int = 0
+//@   oncall close: nDone = nDone + 1
+//@   dyncall DialContext: modifies nothing
+//@   modifies t.dialingCall, t.c, call.c, call.err
+//@   ensures [C18:waiters-released-on-every-path] nDone == 1
+//@   ensures [C18:late-connection-not-handed-out] old(t.closed) ==> t.c == old(t.c) && call.c == nil && call.err != nil
+//@   ensures t.dialingCall == nil
+//@   callsite close: [C18:the-call-being-waited-for] arg0 == call.done
+
 // closing a transport (any implementation) does not touch its user's state: it closes its own connections
 //@ func (t Transport) Close() (err error)
 //@   trusted
